@@ -10,6 +10,7 @@ package vsync
 
 import (
 	"context"
+	"reflect"
 	"sync"
 	"time"
 )
@@ -337,4 +338,76 @@ func Now() time.Time {
 		return time.Now().Add(time.Duration(s.clockOffset.Load()))
 	}
 	return time.Now()
+}
+
+// ---------------------------------------------------------------- select
+
+// SelCase is one communication clause of a select statement that blocks (no default clause): vgen replaces such a
+// statement by a call of Select and a switch over the clause it chose.
+type SelCase struct {
+	c reflect.SelectCase
+}
+
+// RecvCase / SendCase take the channel (and the value to send) as they stand in the clause, whatever their types.
+func RecvCase(ch interface{}) SelCase {
+	return SelCase{reflect.SelectCase{Dir: reflect.SelectRecv, Chan: reflect.ValueOf(ch)}}
+}
+
+func SendCase(ch interface{}, v interface{}) SelCase {
+	c := reflect.ValueOf(ch)
+	var sv reflect.Value
+	if c.IsValid() && c.Kind() == reflect.Chan {
+		et := c.Type().Elem()
+		if v == nil {
+			sv = reflect.Zero(et)
+		} else {
+			sv = reflect.ValueOf(v)
+			if sv.Type() != et && sv.Type().ConvertibleTo(et) {
+				sv = sv.Convert(et)
+			}
+		}
+	}
+	return SelCase{reflect.SelectCase{Dir: reflect.SelectSend, Chan: c, Send: sv}}
+}
+
+// Select performs the select: it returns the index of the clause that communicated, and for a receive the value and
+// whether the channel was open. Inside a controlled run the thread is enabled as soon as one clause can communicate
+// (a nil channel never can); the communication happens at that moment.
+func Select(cases ...SelCase) (int, reflect.Value, bool) {
+	rc := make([]reflect.SelectCase, 0, len(cases)+1)
+	for _, c := range cases {
+		rc = append(rc, c.c)
+	}
+	if s, t := current(); t != nil {
+		withDefault := append(rc, reflect.SelectCase{Dir: reflect.SelectDefault})
+		chosen, val, ok, got := -1, reflect.Value{}, false, false
+		s.yield(t, &op{kind: "Select", enabled: func() bool {
+			if got {
+				return true
+			}
+			i, v, o := reflect.Select(withDefault)
+			if i == len(rc) {
+				return false
+			}
+			chosen, val, ok, got = i, v, o, true
+			return true
+		}})
+		if rc[chosen].Dir == reflect.SelectRecv {
+			s.hbAcquire(t, rc[chosen].Chan.Interface())
+		}
+		return chosen, val, ok
+	}
+	return reflect.Select(rc)
+}
+
+// SelVal converts the value a receive clause of Select got to the channel's element type.
+func SelVal[T any](_ <-chan T, v reflect.Value) T {
+	var zero T
+	if !v.IsValid() {
+		return zero
+	}
+	if x, ok := v.Interface().(T); ok {
+		return x
+	}
+	return zero
 }
